@@ -56,19 +56,39 @@ Proof. intros HI. induction l as [| x l IH]; intros Hin F; [reflexivity |]. cbn 
   unfold render_slot at 1. rewrite B1, B2, B3. cbn [nz Z.eqb words_of_bytes nonzero filter app].
   apply IH; [| assumption]. intros y Hy. apply Hin. right. assumption. Qed.
 
-Theorem after_unblock lo cfg : Inv lo cfg -> cons_idle (g_cons cfg) ->
+(* what a padding header of length L stored over the slot at the consumer position must satisfy for the memory to be
+   that of a well-formed configuration again (the facts unblock_spec establishes for the sequential unblock) *)
+Definition pad_facts (R : ring) (s1 : slot) (rest : list slot) (L : Z) : Prop :=
+  r_slots R = s1 :: rest /\ s_len s1 <= 0 /\
+  0 < L /\ r_head R mod r_cap R + align L 8 <= r_cap R /\
+  r_head R + align L 8 <= r_tail R /\
+  (r_head R + align L 8 = r_tail R \/ exists s, In s rest /\ s_pos s = r_head R + align L 8) /\
+  (forall x, In x rest -> s_pos x < r_head R + align L 8 -> s_len x = 0) /\
+  (s_len s1 < 0 -> L = - s_len s1) /\
+  (s_len s1 = 0 -> r_head R mod r_cap R + align L 8 < r_cap R).
+
+(* the shape of the two descriptions: the slots as the model holds them after the store are the head slot with the
+   padding header followed by blank slots `pre`, then `suffix`; the padding slot spans exactly head slot + `pre` *)
+Definition pad_shape (R : ring) (s1 : slot) (rest : list slot) (L : Z) (swept suffix : list slot) (pad : slot) : Prop :=
+  exists pre, swept = s1 :: pre /\ rest = pre ++ suffix /\ Forall (fun x => s_len x = 0 /\ s_type x = 0 /\ s_body x = []) pre /\
+    pad = mkSlot (r_head R) (align L 8) L PAD (s_body s1) (s_owner s1) (-1) /\
+    tiled (r_cap R) (r_head R) (r_head R + align L 8) swept /\
+    tiled (r_cap R) (r_head R + align L 8) (r_tail R) suffix.
+
+Theorem after_pad_full lo cfg s1 rest L : Inv lo cfg -> head' (g_ring cfg) (g_cons cfg) = r_head (g_ring cfg) ->
+  (c_pc (g_cons cfg) = CReadHead \/ c_pc (g_cons cfg) = CDone) ->
   let R := g_ring cfg in
-  snd (unblock R) = true ->
+  pad_facts R s1 rest L ->
   exists swept suffix pad,
-    r_slots R = swept ++ suffix /\ swept <> [] /\ Forall (fun s => s_len s <= 0) swept /\
-    s_type pad = PAD /\ s_pos pad = r_head R /\ s_span pad = span_sum swept /\
-    let cfg' := mkCfg (set_slots R (pad :: suffix)) (g_cons cfg) (retire swept (g_prods cfg)) in
-    Inv lo cfg' /\ render (g_ring cfg') = render (fst (unblock R)).
+    r_slots R = swept ++ suffix /\ swept <> [] /\ Forall (fun s => s_len s <= 0 /\ s_pos s < r_head R + align L 8) swept /\
+    s_type pad = PAD /\ s_pos pad = r_head R /\ s_span pad = span_sum swept /\ s_seq pad = -1 /\
+    (let cfg' := mkCfg (set_slots R (pad :: suffix)) (g_cons cfg) (retire swept (g_prods cfg)) in
+     Inv lo cfg' /\ render (g_ring cfg') = render (set_slots R (set_hdr L PAD s1 :: rest))) /\
+    pad_shape R s1 rest L swept suffix pad.
 Proof.
-  intros HI Hid. cbn zeta. set (R := g_ring cfg). intros Hu.
-  pose proof (idle_head' R _ Hid) as Hh'. fold R in Hh'.
-  destruct (unblock_spec lo cfg HI Hid) as (_ & _ & _ & U4). fold R in U4.
-  destruct (U4 Hu) as (s1 & rest & L & Es & Hneg & ER1 & HL & Hfit & Hend & Hb & Hblank & Hnegl & Hstrict). clear U4.
+  intros HI Hh' Hid. cbn zeta. set (R := g_ring cfg). fold R in Hh'.
+  intros (Es & Hneg & HL & Hfit & Hend & Hb & Hblank & Hnegl & Hstrict).
+  assert (ER1 : set_slots R (set_hdr L PAD s1 :: rest) = set_slots R (set_hdr L PAD s1 :: rest)) by reflexivity.
   pose proof HI as [Icap Ilo Ihc Ih8 It8 Ihh Itl Isz Iwin Isl Ipr Ics]. fold R in Icap, Ihc, Ih8, It8, Ihh, Itl, Isz, Iwin, Isl, Ipr, Ics.
   rewrite Hh' in Itl, Ihh. pose proof (cap_ok_range _ Icap) as Hcr.
   rewrite Es in Itl. inversion Itl as [| h0 t0 s0 sl0 Hp1 G1 T2]; subst h0 t0 s0 sl0.
@@ -99,8 +119,16 @@ Proof.
   assert (Tnew : tiled (r_cap R) (r_head R) (r_tail R) (pad :: suffix)).
   { constructor; [reflexivity | exact Gpad | exact Tsuf]. }
   exists swept, suffix, pad.
-  split; [exact Esw |]. split; [discriminate |]. split; [exact Hsw0 |].
-  split; [reflexivity |]. split; [reflexivity |]. split; [cbn [pad s_span]; lia |].
+  split; [exact Esw |]. split; [discriminate |]. split.
+  { pose proof (tiled_range _ _ _ _ Tsw) as RgS. rewrite Forall_forall in Hsw0, RgS |- *. intros y Hy.
+    split; [exact (Hsw0 y Hy) |]. destruct (RgS y Hy) as (_ & Yb & (_ & _ & Ys & _)). lia. }
+  split; [reflexivity |]. split; [reflexivity |]. split; [cbn [pad s_span]; lia |]. split; [reflexivity |].
+  assert (SHAPE : pad_shape R s1 rest L swept suffix pad).
+  { exists pre. split; [reflexivity |]. split; [exact Erest |]. split.
+    - apply Forall_forall. intros x Hx. rewrite Forall_forall in Hpre0. pose proof (Hpre0 x Hx) as H0.
+      destruct (slot_state lo cfg x HI ltac:(fold R; rewrite Es, Erest; right; apply in_or_app; left; exact Hx)) as [P | [(N & _) | B]]; [lia | lia | exact B].
+    - split; [reflexivity |]. split; [exact Tsw | exact Tsuf]. }
+  split; [| exact SHAPE].
   cbn zeta.
   pose proof (ext_retire swept (g_prods cfg)) as X.
   (* every swept slot belongs to a producer in flight, and that producer owns nothing else *)
@@ -166,7 +194,7 @@ Proof.
         unfold owned_by. apply existsb_exists. exists s. split; [assumption | lia].
     + unfold cons_ok in *. destruct Hid as [E | E]; rewrite E in *; assumption.
   - (* the same memory *)
-    cbn [g_ring]. rewrite ER1. unfold render. cbn [set_slots r_slots r_cap flat_map].
+    cbn [g_ring]. unfold render. cbn [set_slots r_slots r_cap flat_map].
     assert (Epad : render_slot (r_cap R) pad = render_slot (r_cap R) (set_hdr L PAD s1)).
     { unfold render_slot, pad. cbn [set_hdr s_pos s_len s_type s_body]. rewrite Hp1. reflexivity. }
     rewrite Epad. rewrite Erest. rewrite flat_map_app.
@@ -175,3 +203,33 @@ Proof.
       intros x Hx. fold R. rewrite Es, Erest. right. apply in_or_app. left. assumption. }
     rewrite Epre. reflexivity.
 Qed.
+
+Theorem after_pad lo cfg s1 rest L : Inv lo cfg -> head' (g_ring cfg) (g_cons cfg) = r_head (g_ring cfg) ->
+  (c_pc (g_cons cfg) = CReadHead \/ c_pc (g_cons cfg) = CDone) ->
+  let R := g_ring cfg in
+  pad_facts R s1 rest L ->
+  exists swept suffix pad,
+    r_slots R = swept ++ suffix /\ swept <> [] /\ Forall (fun s => s_len s <= 0 /\ s_pos s < r_head R + align L 8) swept /\
+    s_type pad = PAD /\ s_pos pad = r_head R /\ s_span pad = span_sum swept /\ s_seq pad = -1 /\
+    let cfg' := mkCfg (set_slots R (pad :: suffix)) (g_cons cfg) (retire swept (g_prods cfg)) in
+    Inv lo cfg' /\ render (g_ring cfg') = render (set_slots R (set_hdr L PAD s1 :: rest)).
+Proof. intros HI Hh Hid. cbn zeta. intros PF.
+  destruct (after_pad_full lo cfg s1 rest L HI Hh Hid PF) as (swept & suffix & pad & A & B & C & D1 & D2 & D3 & D4 & D5 & _).
+  exists swept, suffix, pad. auto 10. Qed.
+
+Theorem after_unblock lo cfg : Inv lo cfg -> cons_idle (g_cons cfg) ->
+  let R := g_ring cfg in
+  snd (unblock R) = true ->
+  exists swept suffix pad,
+    r_slots R = swept ++ suffix /\ swept <> [] /\ Forall (fun s => s_len s <= 0) swept /\
+    s_type pad = PAD /\ s_pos pad = r_head R /\ s_span pad = span_sum swept /\
+    let cfg' := mkCfg (set_slots R (pad :: suffix)) (g_cons cfg) (retire swept (g_prods cfg)) in
+    Inv lo cfg' /\ render (g_ring cfg') = render (fst (unblock R)).
+Proof.
+  intros HI Hid. cbn zeta. intros Hu.
+  destruct (unblock_spec lo cfg HI Hid) as (_ & _ & _ & U4).
+  destruct (U4 Hu) as (s1 & rest & L & Es & Hneg & ER1 & HL & Hfit & Hend & Hb & Hblank & Hnegl & Hstrict). clear U4.
+  rewrite ER1. destruct (after_pad lo cfg s1 rest L HI (idle_head' _ _ Hid) Hid) as (swept & suffix & pad & A & B & C & D1 & D2 & D3 & _ & D).
+  { unfold pad_facts. repeat split; assumption. }
+  exists swept, suffix, pad. split; [exact A |]. split; [exact B |]. split; [| split; [exact D1 | split; [exact D2 | split; [exact D3 | exact D]]]].
+  eapply Forall_impl; [| exact C]. cbn. intros a (Ha & _). exact Ha. Qed.
